@@ -37,7 +37,8 @@ def impl_env():
 def generators():
     import gen_framing
     import gen_registry
-    gens = {'Framing': gen_framing.generate, 'Registry': gen_registry.generate}
+    import gen_persist
+    gens = {'Framing': gen_framing.generate, 'Registry': gen_registry.generate, 'Persist': gen_persist.generate}
     try:
         import gen_units
         gens.update(gen_units.GENERATORS)
